@@ -368,7 +368,33 @@ const namedFuncDecls = "type FnE func() (int, error)\n\ntype FnIE func(int) (int
 
 const concreteErrDecls = "type MyErr struct{ C int }\n\nfunc (m MyErr) Error() string { return \"\" }\n\ntype PErr struct{ C int }\n\nfunc (m *PErr) Error() string { return \"\" }\x00"
 
+const namedListDecls = "type Names []string\n\ntype Tags []string\n\ntype Ages map[string]int\n\ntype Sizes map[string]int\n\ntype NameSet map[string]struct{}\n\ntype TagSet map[string]struct{}\x00"
+
 func init() {
+	// defined slice and map types where the list plugins are documented for []T and map[K]V: alone, and two of them
+	// with one underlying type under two names (whatever a plugin makes of them: compiling code or a diagnostic)
+	for _, m := range []misuse{
+		{"named-list", "sort", "deriveSortX(Names{})"},
+		{"named-list", "sort", "deriveSortXNames(Names{})\n\tderiveSortXTags(Tags{})"},
+		{"named-list", "sort", "deriveSortXNames(Names{})\n\tderiveSortXPlain([]string{})"},
+		{"named-list", "unique", "deriveUniqueXNames(Names{})\n\tderiveUniqueXTags(Tags{})"},
+		{"named-list", "contains", "deriveContainsXNames(Names{}, \"a\")\n\tderiveContainsXTags(Tags{}, \"a\")"},
+		{"named-list", "min", "deriveMinXNames(Names{}, \"a\")\n\tderiveMinXTags(Tags{}, \"a\")"},
+		{"named-list", "set", "deriveSetXNames(Names{})\n\tderiveSetXTags(Tags{})"},
+		{"named-list", "union", "deriveUnionXNames(Names{}, Names{})\n\tderiveUnionXTags(Tags{}, Tags{})"},
+		{"named-list", "union", "deriveUnionXNames(NameSet{}, NameSet{})\n\tderiveUnionXTags(TagSet{}, TagSet{})"},
+		{"named-list", "intersect", "deriveIntersectXNames(NameSet{}, NameSet{})\n\tderiveIntersectXTags(TagSet{}, TagSet{})"},
+		{"named-list", "keys", "deriveKeysXAges(Ages{})\n\tderiveKeysXSizes(Sizes{})"},
+		{"named-list", "filter", "deriveFilterXNames(func(string) bool { return true }, Names{})\n\tderiveFilterXTags(func(string) bool { return true }, Tags{})"},
+		{"named-list", "fmap", "deriveFmapXNames(func(string) int { return 0 }, Names{})\n\tderiveFmapXTags(func(string) int { return 0 }, Tags{})"},
+		{"named-list", "join", "deriveJoinXNames([]Names{})\n\tderiveJoinXTags([]Tags{})"},
+		{"named-list", "traverse", "deriveTraverseXNames(func(string) (int, error) { return 0, nil }, Names{})\n\tderiveTraverseXTags(func(string) (int, error) { return 0, nil }, Tags{})"},
+		{"named-list", "any", "deriveAnyXNames(func(string) bool { return true }, Names{})\n\tderiveAnyXTags(func(string) bool { return true }, Tags{})"},
+		{"named-list", "takewhile", "deriveTakeWhileXNames(func(string) bool { return true }, Names{})\n\tderiveTakeWhileXTags(func(string) bool { return true }, Tags{})"},
+	} {
+		m.call = namedListDecls + m.call
+		misuses = append(misuses, m)
+	}
 	// a type that implements error where the predeclared error is spelled out by the generated code
 	for _, m := range []misuse{
 		{"concrete-error", "compose", "deriveComposeX(func(int) (string, MyErr) { return \"\", MyErr{} }, func(string) (int, error) { return 0, nil })"},
